@@ -1,16 +1,873 @@
-//! Suite C13 (stub — replaced when the property's harness is built).
-#![allow(dead_code, unused_imports)]
+//! C13: the SPI transactions of lora-phy's SX126x / SX127x drivers vs the Lean model, the Lean
+//! transcription of Semtech's reference driver, and the COMPILED reference driver (SWL2001 C code
+//! through `smtc-modem-cores`) — all over the same wire-level fake chip with the same register file.
+//!
+//! Op lines:
+//!   C13 op  <chip> <seed> <pokes|-> <operation> <args…>   lora-phy: canonical SPI transcript
+//!   C13 res <chip> <seed> <pokes|-> <operation> <args…>   lora-phy: result + full I/O event log
+//!   C13 ref <chip> <seed> <pokes|-> <operation> <args…>   compiled Semtech C: canonical SPI transcript
+//! chip   = 1261|1262|wlhp|wllp|1276|1272, optionally `/flags`: d use_dcdc, b rx_boost, t<k> TCXO
+//!          voltage code k (SX126x); c tcxo_used, x tx_boost, b rx_boost (SX127x)
+//! seed   = register-file seed (every register starts as `reg_init(seed, address)`)
+//! pokes  = `addr=value,…` (hex) overriding single registers
+//! canonical transcript = the MOSI byte stream of every SPI transaction (written bytes, one 00 per
+//!          byte read), comma separated — lora-phy's `[op] + read status + read n` and the C
+//!          driver's `[op, NOP] + read n` are the same bytes on the wire.
+use crate::fakechip::*;
 use crate::util::*;
+use lora_modulation::{Bandwidth, CodingRate, SpreadingFactor};
+use lora_phy::mod_params::{DutyCycleParams, ModulationParams, PacketParams, RadioError, RadioMode};
+use lora_phy::mod_traits::{IrqState, RadioKind};
+use lora_phy::sx126x::{self, Sx126xVariant};
+use lora_phy::RxMode;
+use smtc_modem_cores::sx126x as c126;
+use std::panic::AssertUnwindSafe;
 
-pub fn eval(_op: &str) -> String {
-    "bad-op".into()
+pub fn reg_init(seed: u64, a: u64) -> u8 {
+    ((((a.wrapping_mul(2654435761)).wrapping_add(seed.wrapping_mul(40503))) % 4294967296) >> 13) as u8
+}
+
+pub const SFS: [(u32, SpreadingFactor); 8] = [
+    (5, SpreadingFactor::_5),
+    (6, SpreadingFactor::_6),
+    (7, SpreadingFactor::_7),
+    (8, SpreadingFactor::_8),
+    (9, SpreadingFactor::_9),
+    (10, SpreadingFactor::_10),
+    (11, SpreadingFactor::_11),
+    (12, SpreadingFactor::_12),
+];
+pub const BWS: [(u32, Bandwidth); 10] = [
+    (7810, Bandwidth::_7KHz),
+    (10420, Bandwidth::_10KHz),
+    (15630, Bandwidth::_15KHz),
+    (20830, Bandwidth::_20KHz),
+    (31250, Bandwidth::_31KHz),
+    (41670, Bandwidth::_41KHz),
+    (62500, Bandwidth::_62KHz),
+    (125000, Bandwidth::_125KHz),
+    (250000, Bandwidth::_250KHz),
+    (500000, Bandwidth::_500KHz),
+];
+pub const CRS: [(u32, CodingRate); 4] = [(5, CodingRate::_4_5), (6, CodingRate::_4_6), (7, CodingRate::_4_7), (8, CodingRate::_4_8)];
+
+pub fn sf_of(s: &str) -> Option<SpreadingFactor> {
+    SFS.iter().find(|(n, _)| n.to_string() == s).map(|x| x.1)
+}
+pub fn bw_of(s: &str) -> Option<Bandwidth> {
+    BWS.iter().find(|(n, _)| n.to_string() == s).map(|x| x.1)
+}
+pub fn cr_of(s: &str) -> Option<CodingRate> {
+    CRS.iter().find(|(n, _)| n.to_string() == s).map(|x| x.1)
+}
+
+/// `sleep standby fs tx rxs<n> rxc rxd<rx>:<sleep> listen cad`
+pub fn mode_of(s: &str) -> Option<RadioMode> {
+    Some(match s {
+        "sleep" => RadioMode::Sleep,
+        "standby" => RadioMode::Standby,
+        "fs" => RadioMode::FrequencySynthesis,
+        "tx" => RadioMode::Transmit,
+        "listen" => RadioMode::Listen,
+        "cad" => RadioMode::ChannelActivityDetection,
+        _ => RadioMode::Receive(rxmode_of(s)?),
+    })
+}
+pub fn rxmode_of(s: &str) -> Option<RxMode> {
+    if s == "rxc" {
+        Some(RxMode::Continuous)
+    } else if let Some(n) = s.strip_prefix("rxs") {
+        Some(RxMode::Single(n.parse().ok()?))
+    } else if let Some(r) = s.strip_prefix("rxd") {
+        let (a, b) = r.split_once(':')?;
+        Some(RxMode::DutyCycle(DutyCycleParams { rx_time: a.parse().ok()?, sleep_time: b.parse().ok()? }))
+    } else {
+        None
+    }
+}
+
+#[derive(Clone, Copy, PartialEq, Eq)]
+pub enum Variant {
+    Sx1261,
+    Sx1262,
+    WlHp,
+    WlLp,
+    Sx1276,
+    Sx1272,
+}
+
+#[derive(Clone, Copy)]
+pub struct ChipCfg {
+    pub variant: Variant,
+    pub dcdc: bool,
+    pub boost: bool,
+    pub tcxo: Option<u8>,
+    pub tcxo_used: bool,
+    pub tx_boost: bool,
+}
+
+pub fn parse_chip(tok: &str) -> Option<ChipCfg> {
+    let (v, flags) = tok.split_once('/').unwrap_or((tok, ""));
+    let variant = match v {
+        "1261" => Variant::Sx1261,
+        "1262" => Variant::Sx1262,
+        "wlhp" => Variant::WlHp,
+        "wllp" => Variant::WlLp,
+        "1276" => Variant::Sx1276,
+        "1272" => Variant::Sx1272,
+        _ => return None,
+    };
+    let mut c = ChipCfg { variant, dcdc: false, boost: false, tcxo: None, tcxo_used: false, tx_boost: false };
+    let fb = flags.as_bytes();
+    let mut i = 0;
+    while i < fb.len() {
+        match fb[i] {
+            b'd' => c.dcdc = true,
+            b'b' => c.boost = true,
+            b'c' => c.tcxo_used = true,
+            b'x' => c.tx_boost = true,
+            b't' => {
+                i += 1;
+                let k = *fb.get(i)?;
+                if !(b'0'..=b'7').contains(&k) {
+                    return None;
+                }
+                c.tcxo = Some(k - b'0');
+            }
+            _ => return None,
+        }
+        i += 1;
+    }
+    Some(c)
+}
+
+pub fn is_126(v: Variant) -> bool {
+    !matches!(v, Variant::Sx1276 | Variant::Sx1272)
+}
+
+pub fn make_world(cfg: &ChipCfg, seed: u64, pokes: &str) -> Option<Shared> {
+    let w = World::new(if is_126(cfg.variant) { Kind::Sx126x } else { Kind::Sx127x });
+    {
+        let mut m = w.borrow_mut();
+        let n = m.regs.len();
+        for a in 0..n {
+            m.regs[a] = reg_init(seed, a as u64);
+        }
+        for a in 0..256 {
+            m.buffer[a] = reg_init(seed ^ 0x5555, 0x10000 + a as u64);
+        }
+        if pokes != "-" {
+            for p in pokes.split(',') {
+                let (a, v) = p.split_once('=')?;
+                let a = usize::from_str_radix(a, 16).ok()?;
+                let v = u8::from_str_radix(v, 16).ok()?;
+                if a >= n {
+                    return None;
+                }
+                m.regs[a] = v;
+            }
+        }
+    }
+    Some(w)
+}
+
+fn tcxo_of(k: u8) -> sx126x::TcxoCtrlVoltage {
+    use sx126x::TcxoCtrlVoltage::*;
+    [Ctrl1V6, Ctrl1V7, Ctrl1V8, Ctrl2V2, Ctrl2V4, Ctrl2V7, Ctrl3V0, Ctrl3V3][k as usize & 7]
+}
+
+fn show_res<T>(r: Result<T, RadioError>, f: impl FnOnce(T) -> String) -> String {
+    match r {
+        Ok(v) => f(v),
+        Err(e) => format!("err:{:?}", e).replace(' ', ""),
+    }
+}
+fn unit(_: ()) -> String {
+    "ok".into()
+}
+fn irq_s(v: (Option<IrqState>, Option<bool>)) -> String {
+    format!(
+        "ok:{},{}",
+        match v.0 {
+            None => "None",
+            Some(IrqState::Done) => "Done",
+            Some(IrqState::PreambleReceived) => "PreambleReceived",
+        },
+        match v.1 {
+            None => "-",
+            Some(false) => "0",
+            Some(true) => "1",
+        }
+    )
+}
+
+/// run one RadioKind operation of the real driver; `None` = unknown operation / malformed arguments
+fn lp_op<RK: RadioKind>(rk: &mut RK, w: &Shared, op: &[&str]) -> Option<String> {
+    let b = |s: &str| -> Option<bool> {
+        match s {
+            "0" => Some(false),
+            "1" => Some(true),
+            _ => None,
+        }
+    };
+    Some(match op {
+        ["sleep", warm] => {
+            let warm = b(warm)?;
+            show_res(block_on(rk.set_sleep(warm, &mut FakeDelay(w.clone()))), unit)
+        }
+        ["standby"] => show_res(block_on(rk.set_standby()), unit),
+        ["channel", hz] => show_res(block_on(rk.set_channel(hz.parse().ok()?)), unit),
+        ["modparams", sf, bw, cr, ldro, hz] => {
+            let m = ModulationParams {
+                spreading_factor: sf_of(sf)?,
+                bandwidth: bw_of(bw)?,
+                coding_rate: cr_of(cr)?,
+                low_data_rate_optimize: ldro.parse().ok()?,
+                frequency_in_hz: hz.parse().ok()?,
+            };
+            show_res(block_on(rk.set_modulation_params(&m)), unit)
+        }
+        ["initmod", word, sf, bw, cr, ldro, hz] => {
+            let m = ModulationParams {
+                spreading_factor: sf_of(sf)?,
+                bandwidth: bw_of(bw)?,
+                coding_rate: cr_of(cr)?,
+                low_data_rate_optimize: ldro.parse().ok()?,
+                frequency_in_hz: hz.parse().ok()?,
+            };
+            let r = block_on(rk.init_lora(word.parse().ok()?));
+            match r {
+                Ok(()) => show_res(block_on(rk.set_modulation_params(&m)), unit),
+                Err(e) => show_res(Err::<(), _>(e), unit),
+            }
+        }
+        ["pktparams", pre, implicit, len, crc, iq] => {
+            let p = PacketParams {
+                preamble_length: pre.parse().ok()?,
+                implicit_header: b(implicit)?,
+                payload_length: len.parse().ok()?,
+                crc_on: b(crc)?,
+                iq_inverted: b(iq)?,
+            };
+            show_res(block_on(rk.set_packet_params(&p)), unit)
+        }
+        ["syncword", word] => show_res(block_on(rk.set_lora_sync_word(word.parse().ok()?)), unit),
+        ["bufbase", tx, rx] => show_res(block_on(rk.set_tx_rx_buffer_base_address(tx.parse().ok()?, rx.parse().ok()?)), unit),
+        ["payload", hexs] => {
+            let p = unhex(hexs);
+            show_res(block_on(rk.set_payload(&p)), unit)
+        }
+        ["txpower", dbm, hz, prep] => {
+            let m = if *hz == "-" {
+                None
+            } else {
+                Some(ModulationParams {
+                    spreading_factor: SpreadingFactor::_7,
+                    bandwidth: Bandwidth::_125KHz,
+                    coding_rate: CodingRate::_4_5,
+                    low_data_rate_optimize: 0,
+                    frequency_in_hz: hz.parse().ok()?,
+                })
+            };
+            show_res(block_on(rk.set_tx_power_and_ramp_time(dbm.parse().ok()?, m.as_ref(), b(prep)?)), unit)
+        }
+        ["irqparams", mode] => {
+            let m = if *mode == "none" { None } else { Some(mode_of(mode)?) };
+            show_res(block_on(rk.set_irq_params(m)), unit)
+        }
+        ["dotx"] => show_res(block_on(rk.do_tx()), unit),
+        ["dorx", mode] => show_res(block_on(rk.do_rx(rxmode_of(mode)?)), unit),
+        ["docad", sf] => {
+            let m = ModulationParams {
+                spreading_factor: sf_of(sf)?,
+                bandwidth: Bandwidth::_125KHz,
+                coding_rate: CodingRate::_4_5,
+                low_data_rate_optimize: 0,
+                frequency_in_hz: 868_100_000,
+            };
+            show_res(block_on(rk.do_cad(&m)), unit)
+        }
+        ["calimg", hz] => show_res(block_on(rk.calibrate_image(hz.parse().ok()?)), unit),
+        ["wake", mode] => show_res(block_on(rk.ensure_ready(mode_of(mode)?)), unit),
+        ["clearirq"] => show_res(block_on(rk.clear_irq_status()), unit),
+        ["txcw"] => show_res(block_on(rk.set_tx_continuous_wave_mode()), unit),
+        ["initlora", word] => show_res(block_on(rk.init_lora(word.parse().ok()?)), unit),
+        ["irqevent", mode, flags, clear, cad] => {
+            w.borrow_mut().irq_default = flags.parse().ok()?;
+            let mut cadv = false;
+            let want_cad = b(cad)?;
+            let r = block_on(rk.process_irq_event(mode_of(mode)?, if want_cad { Some(&mut cadv) } else { None }, b(clear)?));
+            show_res(r, |s| irq_s((s, if want_cad { Some(cadv) } else { None })))
+        }
+        ["pktstatus", a, bb, c] => {
+            {
+                let mut m = w.borrow_mut();
+                m.pkt_status = [a.parse().ok()?, bb.parse().ok()?, c.parse().ok()?];
+                // SX127x: RegPktSnrValue, RegPktRssiValue
+                if m.kind == Kind::Sx127x {
+                    m.regs[0x19] = m.pkt_status[1];
+                    m.regs[0x1a] = m.pkt_status[0];
+                }
+            }
+            // the decoded values are C17's business (and change with its fixes): only the traffic is compared here
+            show_res(block_on(rk.get_rx_packet_status()), |_| "ok".into())
+        }
+        ["rssi", a] => {
+            {
+                let mut m = w.borrow_mut();
+                m.rssi_inst = a.parse().ok()?;
+                if m.kind == Kind::Sx127x {
+                    m.regs[0x1b] = m.rssi_inst;
+                }
+            }
+            show_res(block_on(rk.get_rssi()), |_| "ok".into())
+        }
+        _ => return None,
+    })
+}
+
+fn run_lp(cfg: &ChipCfg, w: &Shared, op: &[&str]) -> Option<String> {
+    macro_rules! with126 {
+        ($chip:expr) => {{
+            let mut rk = sx126x::Sx126x::new(
+                FakeSpi(w.clone()),
+                FakeIv(w.clone()),
+                sx126x::Config { chip: $chip, tcxo_ctrl: cfg.tcxo.map(tcxo_of), use_dcdc: cfg.dcdc, rx_boost: cfg.boost },
+            );
+            lp_op(&mut rk, w, op)
+        }};
+    }
+    macro_rules! with127 {
+        ($chip:expr) => {{
+            let mut rk = lora_phy::sx127x::Sx127x::new(
+                FakeSpi(w.clone()),
+                FakeIv(w.clone()),
+                lora_phy::sx127x::Config { chip: $chip, tcxo_used: cfg.tcxo_used, tx_boost: cfg.tx_boost, rx_boost: cfg.boost },
+            );
+            lp_op(&mut rk, w, op)
+        }};
+    }
+    match cfg.variant {
+        Variant::Sx1261 => with126!(sx126x::Sx1261),
+        Variant::Sx1262 => with126!(sx126x::Sx1262),
+        Variant::WlHp => with126!(sx126x::Stm32wl { use_high_power_pa: true }),
+        Variant::WlLp => with126!(sx126x::Stm32wl { use_high_power_pa: false }),
+        Variant::Sx1276 => with127!(lora_phy::sx127x::Sx1276),
+        Variant::Sx1272 => with127!(lora_phy::sx127x::Sx1272),
+    }
+}
+
+/// the PA row lora-phy's variant table selects — handed to the reference as the BSP would
+fn pa_row(v: Variant, dbm: i32) -> (u8, u8, i8) {
+    let t = match v {
+        Variant::Sx1261 | Variant::WlLp => sx126x::Sx1261.pa_table(),
+        Variant::Sx1262 => sx126x::Sx1262.pa_table(),
+        _ => sx126x::Stm32wl { use_high_power_pa: true }.pa_table(),
+    };
+    let max = t.entries[t.entries.len() - 1].max_dbm;
+    let txp = dbm.clamp(t.min_dbm as i32, max as i32) as i8;
+    let e = t.entries.iter().find(|e| e.max_dbm >= txp).unwrap_or(&t.entries[t.entries.len() - 1]);
+    (e.pa_duty_cycle, e.hp_max, e.tx_params_at_max - (e.max_dbm - txp))
+}
+
+fn c_sf(n: u32) -> Option<c126::sx126x_lora_sf_e> {
+    use c126::sx126x_lora_sf_e::*;
+    Some(match n {
+        5 => SX126X_LORA_SF5,
+        6 => SX126X_LORA_SF6,
+        7 => SX126X_LORA_SF7,
+        8 => SX126X_LORA_SF8,
+        9 => SX126X_LORA_SF9,
+        10 => SX126X_LORA_SF10,
+        11 => SX126X_LORA_SF11,
+        12 => SX126X_LORA_SF12,
+        _ => return None,
+    })
+}
+fn c_bw(hz: u32) -> Option<c126::sx126x_lora_bw_e> {
+    use c126::sx126x_lora_bw_e::*;
+    Some(match hz {
+        500000 => SX126X_LORA_BW_500,
+        250000 => SX126X_LORA_BW_250,
+        125000 => SX126X_LORA_BW_125,
+        62500 => SX126X_LORA_BW_062,
+        41670 => SX126X_LORA_BW_041,
+        31250 => SX126X_LORA_BW_031,
+        20830 => SX126X_LORA_BW_020,
+        15630 => SX126X_LORA_BW_015,
+        10420 => SX126X_LORA_BW_010,
+        7810 => SX126X_LORA_BW_007,
+        _ => return None,
+    })
+}
+fn c_cr(d: u32) -> Option<c126::sx126x_lora_cr_e> {
+    use c126::sx126x_lora_cr_e::*;
+    Some(match d {
+        5 => SX126X_LORA_CR_4_5,
+        6 => SX126X_LORA_CR_4_6,
+        7 => SX126X_LORA_CR_4_7,
+        8 => SX126X_LORA_CR_4_8,
+        _ => return None,
+    })
+}
+
+/// the reference calls that realise an operation (mirrors `Spec.Semtech.Sx126x.Ref` in Lean)
+fn run_ref126(cfg: &ChipCfg, w: &Shared, op: &[&str]) -> Option<()> {
+    let mut c = c126::Context::new(FakeSpi(w.clone()));
+    let b = |s: &str| -> Option<bool> {
+        match s {
+            "0" => Some(false),
+            "1" => Some(true),
+            _ => None,
+        }
+    };
+    let hp = matches!(cfg.variant, Variant::Sx1262 | Variant::WlHp);
+    match op {
+        ["sleep", warm] => {
+            c.set_sleep(if b(warm)? { c126::SleepCfg::WarmStart } else { c126::SleepCfg::ColdStart });
+        }
+        ["standby"] => {
+            c.set_standby(c126::sx126x_standby_cfgs_e::SX126X_STANDBY_CFG_RC);
+        }
+        ["channel", hz] => {
+            c.set_rf_freq(hz.parse().ok()?);
+        }
+        ["modparams", sf, bw, cr, ldro, _hz] => {
+            c.set_lora_mod_params(&c126::sx126x_mod_params_lora_t {
+                sf: c_sf(sf.parse().ok()?)?,
+                bw: c_bw(bw.parse().ok()?)?,
+                cr: c_cr(cr.parse().ok()?)?,
+                ldro: ldro.parse().ok()?,
+            });
+        }
+        ["pktparams", pre, implicit, len, crc, iq] => {
+            c.set_lora_pkt_params(&c126::sx126x_pkt_params_lora_t {
+                preamble_len_in_symb: pre.parse().ok()?,
+                header_type: if b(implicit)? {
+                    c126::sx126x_lora_pkt_len_modes_e::SX126X_LORA_PKT_IMPLICIT
+                } else {
+                    c126::sx126x_lora_pkt_len_modes_e::SX126X_LORA_PKT_EXPLICIT
+                },
+                pld_len_in_bytes: len.parse().ok()?,
+                crc_is_on: b(crc)?,
+                invert_iq_is_on: b(iq)?,
+            });
+        }
+        ["syncword", word] => {
+            let wd: u16 = word.parse().ok()?;
+            // the reference takes the legacy byte 0xYZ for the register word 0xY4Z4
+            c.set_lora_sync_word((((wd >> 8) & 0xF0) | ((wd >> 4) & 0x0F)) as u8);
+        }
+        ["bufbase", tx, rx] => {
+            c.set_buffer_base_address(tx.parse().ok()?, rx.parse().ok()?);
+        }
+        ["payload", hexs] => {
+            c.write_buffer(0, &unhex(hexs));
+        }
+        ["txpower", dbm, _hz, prep] => {
+            let (duty, hp_max, pwr) = pa_row(cfg.variant, dbm.parse().ok()?);
+            if hp {
+                c.cfg_tx_clamp();
+            }
+            c.set_pa_cfg(&c126::sx126x_pa_cfg_params_t { pa_duty_cycle: duty, hp_max, device_sel: if hp { 0 } else { 1 }, pa_lut: 1 });
+            c.set_tx_params(
+                pwr,
+                if b(prep)? { c126::sx126x_ramp_time_e::SX126X_RAMP_40_US } else { c126::sx126x_ramp_time_e::SX126X_RAMP_200_US },
+            );
+        }
+        ["irqparams", mode] => {
+            let m: u16 = match *mode {
+                "standby" => 0xFFFF,
+                "tx" => 0x0201,
+                "cad" => 0x0180,
+                m if m.starts_with("rx") => 0xFFFF,
+                _ => 0,
+            };
+            c.set_dio_irq_params(m, m, 0, 0);
+        }
+        ["dotx"] => {
+            c.set_tx(0);
+        }
+        ["dorx", mode] => {
+            let m = rxmode_of(mode)?;
+            c.stop_timer_on_preamble(true);
+            // the reference API takes a u8; the clamp to 248 is the same for every value above it
+            c.set_lora_symb_nb_timeout(match m {
+                RxMode::Single(n) => n.min(255) as u8,
+                _ => 0,
+            });
+            c.cfg_rx_boosted(cfg.boost);
+            match m {
+                RxMode::Single(_) => {
+                    c.set_rx_with_timeout_in_rtc_step(0);
+                }
+                RxMode::Continuous => {
+                    c.set_rx_with_timeout_in_rtc_step(0xFFFFFF);
+                }
+                RxMode::DutyCycle(_) => return None, // not exported by the bindings: Lean spec only
+            }
+        }
+        ["docad", sf] => {
+            let sf: u32 = sf.parse().ok()?;
+            c.cfg_rx_boosted(cfg.boost);
+            c.set_cad_params(&c126::sx126x_cad_params_t {
+                cad_symb_nb: c126::sx126x_cad_symbs_e::SX126X_CAD_08_SYMB,
+                cad_detect_peak: (sf + 13) as u8,
+                cad_detect_min: 10,
+                cad_exit_mode: c126::sx126x_cad_exit_modes_e::SX126X_CAD_ONLY,
+                cad_timeout: 0,
+            });
+            c.set_cad();
+        }
+        ["calimg", hz] => {
+            let f: u32 = hz.parse().ok()?;
+            // datasheet table 9-2
+            let (f1, f2) = if f > 900_000_000 {
+                (0xE1, 0xE9)
+            } else if f > 850_000_000 {
+                (0xD7, 0xDB)
+            } else if f > 770_000_000 {
+                (0xC1, 0xC5)
+            } else if f > 460_000_000 {
+                (0x75, 0x81)
+            } else if f > 425_000_000 {
+                (0x6B, 0x6F)
+            } else {
+                (0, 0)
+            };
+            c.cal_img(f1, f2);
+        }
+        ["wake", mode] => {
+            match *mode {
+                "sleep" => {
+                    c.get_status();
+                }
+                m if m.starts_with("rxd") => {
+                    c.get_status();
+                }
+                _ => {}
+            };
+        }
+        ["clearirq"] => {
+            c.clear_irq_status(0xFFFF);
+        }
+        ["txcw"] => {
+            c.set_tx_cw();
+        }
+        ["retention", addr] => {
+            c.add_registers_to_retention_list(&[u16::from_str_radix(addr, 16).ok()?]);
+        }
+        _ => return None,
+    }
+    Some(())
+}
+
+/// canonical MOSI streams of the SPI transactions in the log
+pub fn canonical(log: &[String]) -> String {
+    let mut out: Vec<String> = vec![];
+    for t in log {
+        if let Some(rest) = t.strip_prefix('s') {
+            if rest.ends_with('!') {
+                continue;
+            }
+            let (hexs, n) = match rest.split_once('/') {
+                Some((h, n)) => (h, n.parse::<usize>().unwrap_or(0)),
+                None => (rest, 0),
+            };
+            out.push(format!("{}{}", hexs, "00".repeat(n)));
+        }
+    }
+    if out.is_empty() {
+        "-".into()
+    } else {
+        out.join(",")
+    }
+}
+
+pub fn eval(op: &str) -> String {
+    let w: Vec<&str> = op.split_whitespace().collect();
+    if w.len() < 6 || w[0] != "C13" {
+        return "bad-op".into();
+    }
+    let (kind, chip, seed, pokes, rest) = (w[1], w[2], w[3], w[4], &w[5..]);
+    let Some(cfg) = parse_chip(chip) else { return "bad-op".into() };
+    let Ok(seed) = seed.parse::<u64>() else { return "bad-op".into() };
+    let Some(world) = make_world(&cfg, seed, pokes) else { return "bad-op".into() };
+    match kind {
+        "op" | "res" => {
+            let r = guarded(AssertUnwindSafe(|| run_lp(&cfg, &world, rest)));
+            let m = world.borrow();
+            match r {
+                None => {
+                    if kind == "op" {
+                        canonical(&m.log)
+                    } else {
+                        format!("PANIC {}", m.transcript())
+                    }
+                }
+                Some(None) => "bad-op".into(),
+                Some(Some(res)) => {
+                    if kind == "op" {
+                        canonical(&m.log)
+                    } else {
+                        format!("{} {}", res, m.transcript())
+                    }
+                }
+            }
+        }
+        "eff" => {
+            // SX127x: chip-visible effect (masked final register file) of the lora-phy operation
+            if is_126(cfg.variant) {
+                return "bad-op".into();
+            }
+            let r = guarded(AssertUnwindSafe(|| run_lp(&cfg, &world, rest)));
+            match r {
+                Some(Some(_)) => crate::c13b::effect(&cfg, &world, rest),
+                Some(None) => "bad-op".into(),
+                None => "PANIC".into(),
+            }
+        }
+        "efr" => {
+            if is_126(cfg.variant) {
+                return "bad-op".into();
+            }
+            match crate::c13b::run_ref127(&cfg, &world, rest) {
+                Some(()) => crate::c13b::effect(&cfg, &world, rest),
+                None => "bad-op".into(),
+            }
+        }
+        "ref" => {
+            if !is_126(cfg.variant) {
+                return crate::c13b::eval_ref127(&cfg, &world, rest);
+            }
+            match run_ref126(&cfg, &world, rest) {
+                Some(()) => canonical(&world.borrow().log),
+                None => "bad-op".into(),
+            }
+        }
+        _ => "bad-op".into(),
+    }
 }
 
 pub fn expand(_op: &str) -> Vec<String> {
     vec![]
 }
 
-pub fn run(_tier: &str, _seed: u64, dir: &str) {
-    let sink = Sink::new(dir);
-    sink.finish(dir, "stub", false, serde_json::json!({}));
+// ------------------------------------------------------------------------------------------ generation
+
+pub struct Gen<'a> {
+    pub rng: &'a mut Rng,
+    pub sink: &'a mut Sink,
+}
+
+impl<'a> Gen<'a> {
+    /// emit the three views of one operation; `reference` = the compiled C driver can express it
+    pub fn emit(&mut self, chip: &str, seed: u64, pokes: &str, opargs: &str, class: &str, reference: bool) {
+        for kind in ["op", "res"] {
+            let op = format!("C13 {} {} {} {} {}", kind, chip, seed, pokes, opargs);
+            let a = eval(&op);
+            self.sink.case(&op, &a, &format!("{}-{}", kind, class), true);
+        }
+        if reference {
+            let op = format!("C13 ref {} {} {} {}", chip, seed, pokes, opargs);
+            let a = eval(&op);
+            self.sink.case(&op, &a, &format!("ref-{}", class), true);
+        }
+    }
+}
+
+pub const CHIPS126: [&str; 4] = ["1261", "1262", "wlhp", "wllp"];
+
+/// LoRaWAN channel grids (Hz): (first, step, count)
+pub const BANDS: [(u32, u32, u32); 8] = [
+    (863_000_000, 100, 70_000),    // EU868 863-870 MHz at 100 Hz
+    (902_300_000, 200_000, 64),    // US915 125 kHz uplinks
+    (903_000_000, 1_600_000, 8),   // US915 500 kHz uplinks
+    (923_300_000, 600_000, 8),     // US915 downlinks
+    (915_200_000, 200_000, 64),    // AU915
+    (433_050_000, 100, 17_400),    // EU433
+    (865_000_000, 100, 20_000),    // IN865
+    (920_000_000, 100, 50_000),    // AS923 920-925
+];
+
+pub fn run(tier: &str, seed: u64, dir: &str) {
+    let mut rng = Rng::new(seed);
+    let mut sink = Sink::new(dir);
+    let thorough = tier == "thorough";
+    let scale = if thorough { 10 } else { 1 };
+    {
+        let mut g = Gen { rng: &mut rng, sink: &mut sink };
+        gen126(&mut g, scale);
+        crate::c13b::gen127(&mut g, scale);
+    }
+    sink.finish(
+        dir,
+        "every shared RadioKind operation of the real Sx126x<Sx1261|Sx1262|Stm32wl hp/lp> and Sx127x<Sx1276|Sx1272> drivers over a wire-level fake chip whose register file is seeded pseudo-randomly (plus targeted pokes for the read-modify-write registers), three views per case: `op` = lora-phy's canonical SPI transcript vs Lean model vs Lean transcription of SWL2001; `res` = lora-phy's result and full I/O event log vs Lean model; `ref` = the COMPILED Semtech C driver's transcript vs the Lean transcription. Grids: all SF x BW x CR x LDRO; header/CRC/IQ flags x preamble {0,1,8,12,255,256,65535,random} x payload length 0..255; LoRaWAN channel grids at their raster plus a stride over 137-1020 MHz; symbol timeouts 0..65535 (stride + boundaries); all powers -128..127 per variant; every RadioMode for IRQ masks / wake-up. Distinct = distinct op lines; every case compares a concrete transcript.",
+        false,
+        serde_json::json!({}),
+    );
+}
+
+fn gen126(g: &mut Gen, scale: u64) {
+    for chip in CHIPS126 {
+        let flagsets = ["", "/b", "/d", "/db"];
+        let fchip = |g: &mut Gen| format!("{}{}", chip, g.rng.pick(&flagsets));
+        // sleep / standby / simple commands
+        for warm in [0, 1] {
+            let c = fchip(g);
+            let s = g.rng.below(1000);
+            g.emit(&c, s, "-", &format!("sleep {}", warm), "sleep", true);
+        }
+        for opn in ["standby", "dotx", "clearirq", "txcw"] {
+            let c = fchip(g);
+            let s = g.rng.below(1000);
+            g.emit(&c, s, "-", opn, opn, true);
+        }
+        // modulation: all SF x BW x CR x LDRO, random prior TxModulation register
+        for (sf, _) in SFS {
+            for (bw, _) in BWS {
+                for (cr, _) in CRS {
+                    for ldro in [0, 1] {
+                        let s = g.rng.below(100_000);
+                        g.emit(chip, s, "-", &format!("modparams {} {} {} {} 868100000", sf, bw, cr, ldro), "modparams", true);
+                    }
+                }
+            }
+        }
+        // packet params: flags x preamble x payload length
+        let preambles = [0u32, 1, 8, 12, 255, 256, 65535];
+        for len in 0..=255u32 {
+            for flags in 0..8u32 {
+                let pre = if g.rng.chance(1, 3) { g.rng.below(65536) as u32 } else { *g.rng.pick(&preambles) };
+                let s = g.rng.below(100_000);
+                g.emit(
+                    chip,
+                    s,
+                    "-",
+                    &format!("pktparams {} {} {} {} {}", pre, flags & 1, len, (flags >> 1) & 1, (flags >> 2) & 1),
+                    "pktparams",
+                    true,
+                );
+            }
+        }
+        // sync word: words of the legacy shape on the reset register state (low nibbles 4)
+        for _ in 0..(40 * scale) {
+            let y = g.rng.below(16);
+            let z = g.rng.below(16);
+            let word = (y << 12) | (4 << 8) | (z << 4) | 4;
+            let s = g.rng.below(100_000);
+            let pokes = format!("740={:02x},741={:02x}", (g.rng.below(16) << 4) | 4, (g.rng.below(16) << 4) | 4);
+            g.emit(chip, s, &pokes, &format!("syncword {}", word), "syncword", true);
+        }
+        for word in [0x3444u32, 0x1424] {
+            g.emit(chip, 1, "740=14,741=24", &format!("syncword {}", word), "syncword", true);
+        }
+        // buffer base, FIFO writes
+        for _ in 0..(20 * scale) {
+            let (tx, rx) = (g.rng.below(256), g.rng.below(256));
+            g.emit(chip, 0, "-", &format!("bufbase {} {}", tx, rx), "bufbase", true);
+        }
+        g.emit(chip, 0, "-", "bufbase 0 0", "bufbase", true);
+        for n in [0usize, 1, 2, 12, 23, 51, 64, 115, 222, 242, 254, 255] {
+            let p = g.rng.bytes(n);
+            g.emit(chip, 0, "-", &format!("payload {}", hex(&p)), "payload", true);
+        }
+        // PA: every power level, both ramp selections; frequency guard of the SX1261
+        for dbm in -128..=127i32 {
+            for prep in [0, 1] {
+                let s = g.rng.below(100_000);
+                g.emit(chip, s, "-", &format!("txpower {} - {}", dbm, prep), "txpower", true);
+            }
+        }
+        for dbm in [14, 15, 16, 22] {
+            for hz in [399_999_999u32, 400_000_000, 169_000_000, 868_100_000] {
+                let s = g.rng.below(100_000);
+                // below 400 MHz the SX1261 refuses >= 15 dBm without touching the bus: no reference call
+                let lp = chip == "1261" || chip == "wllp";
+                g.emit(chip, s, "-", &format!("txpower {} {} 1", dbm, hz), "txpower-freq", !(lp && dbm >= 15 && hz < 400_000_000));
+            }
+        }
+        // IRQ masks, wake-up
+        for mode in ["sleep", "standby", "tx", "rxs8", "rxc", "rxd100:200", "listen", "cad", "none"] {
+            g.emit(chip, 0, "-", &format!("irqparams {}", mode), "irqparams", true);
+            if mode != "none" {
+                g.emit(chip, 0, "-", &format!("wake {}", mode), "wake", true);
+            }
+        }
+        g.emit(chip, 0, "-", "irqparams fs", "irqparams", true);
+        g.emit(chip, 0, "-", "wake fs", "wake", true);
+        // RX start: symbol timeouts 0..65535 (all up to 300, then stride), continuous, duty cycle
+        let mut ns: Vec<u32> = (0..=300).collect();
+        let mut n = 301u32;
+        while n < 65536 {
+            ns.push(n);
+            n += 1 + (g.rng.below(if scale > 1 { 60 } else { 600 }) as u32);
+        }
+        ns.push(65535);
+        for n in ns {
+            let c = fchip(g);
+            g.emit(&c, 0, "-", &format!("dorx rxs{}", n), "dorx-single", true);
+        }
+        for c in [format!("{}", chip), format!("{}/b", chip)] {
+            g.emit(&c, 0, "-", "dorx rxc", "dorx-continuous", true);
+            for _ in 0..(5 * scale) {
+                let (a, b) = (g.rng.below(1 << 24), g.rng.below(1 << 24));
+                g.emit(&c, 0, "-", &format!("dorx rxd{}:{}", a, b), "dorx-dutycycle", false);
+            }
+            g.emit(&c, 0, "-", "dorx rxd16777215:0", "dorx-dutycycle", false);
+            for (sf, _) in SFS {
+                g.emit(&c, 0, "-", &format!("docad {}", sf), "docad", true);
+            }
+        }
+        // RF frequency: LoRaWAN grids at their raster (sampled in quick), stride over 137-1020 MHz
+        for (first, step, count) in BANDS {
+            let take = (count as u64).min(150 * scale);
+            for k in 0..take {
+                let idx = if take == count as u64 { k } else { g.rng.below(count as u64) };
+                let f = first as u64 + idx * step as u64;
+                g.emit(chip, 0, "-", &format!("channel {}", f), "channel-band", true);
+                if k % 25 == 0 {
+                    g.emit(chip, 0, "-", &format!("calimg {}", f), "calimg", true);
+                }
+            }
+        }
+        let mut f = 137_000_000u64;
+        while f <= 1_020_000_000 {
+            g.emit(chip, 0, "-", &format!("channel {}", f), "channel-stride", true);
+            f += 1_000_000 / scale + g.rng.below(997);
+        }
+        for f in [137_000_000u64, 425_000_000, 425_000_001, 460_000_000, 460_000_001, 770_000_000, 770_000_001, 850_000_000, 850_000_001, 900_000_000, 900_000_001, 1_020_000_000] {
+            g.emit(chip, 0, "-", &format!("calimg {}", f), "calimg", true);
+            g.emit(chip, 0, "-", &format!("channel {}", f), "channel-stride", true);
+        }
+        // init_lora: configurations x retention-list states (count 0..4 valid, > 4 is what a dead bus reads)
+        for flags in ["", "/d", "/t1", "/dt7", "/b"] {
+            for cnt in [0u32, 1, 2, 3, 4] {
+                let c = format!("{}{}", chip, flags);
+                let mut pokes = format!("740=14,741=24,29f={:02x}", cnt);
+                // sometimes the list already holds RxGain (08AC) / TxModulation (0889)
+                if cnt >= 1 && g.rng.chance(1, 2) {
+                    pokes += ",2a0=08,2a1=ac";
+                }
+                if cnt >= 2 && g.rng.chance(1, 2) {
+                    pokes += ",2a2=08,2a3=89";
+                }
+                let s = g.rng.below(100_000);
+                g.emit(&c, s, &pokes, "initlora 13380", "initlora", false);
+            }
+        }
+        // the DIO IRQ event path incl. the implicit-header timeout workaround after RxDone in single mode
+        for (mode, flags) in [("rxs8", 0x0002u32), ("rxs8", 0x0200), ("rxc", 0x0002), ("tx", 0x0001), ("tx", 0x0200), ("cad", 0x0080), ("cad", 0x0180), ("rxs8", 0x0014), ("rxs8", 0x0062), ("standby", 0xffff)] {
+            for clear in [0, 1] {
+                let s = g.rng.below(100_000);
+                g.emit(chip, s, "-", &format!("irqevent {} {} {} {}", mode, flags, clear, if mode == "cad" { 1 } else { 0 }), "irqevent", false);
+            }
+        }
+        for _ in 0..(20 * scale) {
+            // raw SNR 126/127 overflows `i8 + 2` in the present code (C17's finding): kept out of this suite
+            let (a, b, c) = (g.rng.below(256), g.rng.below(126), g.rng.below(256));
+            g.emit(chip, 0, "-", &format!("pktstatus {} {} {}", a, b, c), "pktstatus", false);
+            g.emit(chip, 0, "-", &format!("rssi {}", a), "rssi", false);
+        }
+    }
 }
